@@ -228,6 +228,11 @@ class AffEval:
                     for i, x in enumerate(t.elts):
                         self.env[x.id] = sym(f"{self.env[st.value.id][1]}[{i}]")
                     continue
+                if isinstance(t, ast.Tuple) and isinstance(st.value, ast.Tuple) and len(t.elts) == len(st.value.elts) and all(isinstance(x, ast.Name) for x in t.elts):
+                    vals = [self.scalar(v) for v in st.value.elts]  # right-hand side is evaluated before any target is bound
+                    for x, v in zip(t.elts, vals):
+                        self.env[x.id] = v
+                    continue
                 if isinstance(t, ast.Tuple) and norm(st.value).startswith(self.selfname + "."):
                     base = norm(st.value)[len(self.selfname) + 1:]
                     for i, x in enumerate(t.elts):
